@@ -25,7 +25,7 @@ TRUSTED = [
     'tools/translate.py: every re.compile pattern of parser.py copied into coq/Gen on every run',
     'Model/Regex.v matcher = CPython re semantics (validated by the correspondence)',
     'Model/Script.v, Model/ExprParser.v: hand transliterations of parse_script / parse_expression (validated by the correspondence)',
-    'Model/ScriptX.v split_direct = Model/Script.v split_lines (regex \\r?\\n): NOT proved, checked inside Coq on every sampled text',
+    'Model/ScriptX.v split_direct = Model/Script.v split_lines (regex \\r?\\n): PROVED for every text (Proofs/C10split.v, C10_split_lines_is_the_direct_splitter); still evaluated inside Coq on every sampled text',
     'harness/c10_oracle.py: the rewrites are model-preserving by the property text (its tokenizer decides where a space is allowed); '
     'selfcheck() of that module validates the generator independently of the implementation',
 ]
